@@ -36,6 +36,16 @@ Theorem C10_pivot_2x2_nonsingular : forall (F : rcfType) (alpha akk arr ark sigm
 Proof. move=> F alpha akk arr ark sigma a0 a1 l0 sl; exact: choice2_block_nonsingular. Qed.
 Print Assumptions C10_pivot_2x2_nonsingular.
 
+(* the decision taken inside permutate_mat (model of BKLDLT::permutate_mat, tied bit for bit) IS bk_choice on the four magnitudes:
+   a 1x1 pivot is chosen exactly when bk_choice is not 2 - for every scalar instance *)
+Theorem C10_decision_is_bk_choice : forall (o : Ops) (alpha : T o) (n : nat) (P : packed o) (pm : list BinNums.Z) (k : nat),
+  let '(lambda, r) := find_lambda o n P k in
+  ltb o (zero o) lambda = true ->
+  let '(sigma, p) := find_sigma o n P k r k in
+  fst (fst (permutate_mat o alpha n P pm k)) = negb (Nat.eqb (bk_choice o alpha (abs o (pget o P k k)) lambda sigma (abs o (pget o P r r))) 2).
+Proof. move=> o alpha n P pm k; exact: permutate_mat_decision. Qed.
+Print Assumptions C10_decision_is_bk_choice.
+
 (* the 2x2 diagonal block solve used by solve_inplace and gaussian_elimination_2x2 *)
 Theorem C10_solve_2x2 : forall (F : rcfType) (e11 e21 e22 b1 b2 : F), e11 * e22 - e21 * e21 != 0 ->
   let '(x1, x2) := solve_2x2 (OpsF F) e11 e21 e22 b1 b2 in
